@@ -1579,6 +1579,11 @@ func (g *Gen) genQuery(w *World, ntx int) QuerySpec {
 	}
 	q.Filter = pick(g.R, []string{"", "", "owner", "status", "moniker", "purchaser", "both"})
 	q.Up = g.Prop == "C20" && g.pct(12)
+	if g.Prop == "C20" && g.pct(8) {
+		// the first few, then "all the rest"
+		q.Limit = uint64(1 + g.R.Intn(3))
+		q.Rest = pick(g.R, []uint64{1000, 1 << 32, 1 << 63, ^uint64(0) - 1, ^uint64(0)})
+	}
 	q.MidTx = -1
 	if g.pct(35) && ntx > 0 {
 		q.MidTx = g.R.Intn(ntx + 1)
